@@ -28,6 +28,7 @@ ASSUMPTIONS = [
     "base.gemm/gemv/syrk/symv/axpy are called with consistent dimensions and equal typecodes only; inconsistent "
     "buffer sizes belong to C17/C19",
     "syrk: only the `uplo` triangle of C is compared; symv/syrk read only the `uplo` triangle of A resp. define it",
+    "complex base.syrk with a sparse operand is not judged (no such kernel exists; a repaired library rejects it)",
     "V assigned a matrix of a lower typecode / a scalar / a list, 1x1 sparse operands used as scalars, duplicate "
     "indices on the left-hand side, x or C aliasing an operand: not documented, executed but not judged",
 ]
@@ -56,8 +57,8 @@ PERTURB = {"MALLOC_PERTURB_": "85"}
 
 def plan(tier):
     if tier == "thorough":
-        return [{"variant": "plain", "workers": 12, "cases": 1800, "name": "plain", "env": PERTURB},
-                {"variant": "asan", "workers": 4, "cases": 180, "name": "asan"}]
+        return [{"variant": "plain", "workers": 12, "cases": 2400, "name": "plain", "env": PERTURB},
+                {"variant": "asan", "workers": 4, "cases": 240, "name": "asan"}]
     return [{"variant": "plain", "workers": 7, "cases": 300, "name": "plain", "env": PERTURB},
             {"variant": "asan", "workers": 1, "cases": 40, "name": "asan"}]
 
